@@ -84,10 +84,10 @@ func stringPairs(c *hx.Ctx) []ctxPair {
 		add(pre+randString(c, 70), pre+randString(c, 70), "shared-prefix-long-tails")
 	}
 	// Unicode look-alikes (different bytes)
-	add("café ctx", "café ctx", "unicode-nfc-nfd")
-	add("Kelvin", "Kelvin", "unicode-compat")
-	add("ctx", "ｃｔｘ", "unicode-fullwidth")
-	add("a b", "a b", "unicode-nbsp")
-	add("ctx", "ctx​", "unicode-zero-width")
+	add("caf\u00e9 ctx", "cafe\u0301 ctx", "unicode-nfc-nfd")
+	add("Kelvin", "\u212aelvin", "unicode-compat")
+	add("ctx", "\uff43\uff54\uff58", "unicode-fullwidth")
+	add("a b", "a\u00a0b", "unicode-nbsp")
+	add("ctx", "ctx\u200b", "unicode-zero-width")
 	return out
 }
